@@ -2,7 +2,7 @@
 
 use derivative::Derivative;
 use miette::SourceSpan;
-use printer::tokens::{ELSE, EQQ, GT, GTE, IF, LT, LTE, MINUS, NEQ, ZERO};
+use printer::tokens::{COMMENT, ELSE, EQQ, GT, GTE, IF, LT, LTE, MINUS, NEQ, ZERO};
 use printer::*;
 
 use crate::syntax::*;
@@ -142,6 +142,13 @@ impl Print for IfC {
                 .fst
                 .print(cfg, alloc)
                 .append(alloc.space())
+                // a zero literal directly before the operator can only be kept apart from it by a
+                // comment
+                .append(if ends_with_zero(&self.fst) {
+                    alloc.text(COMMENT).append(alloc.hardline())
+                } else {
+                    alloc.nil()
+                })
                 .append(self.sort.print(cfg, alloc))
                 .append(alloc.space())
                 // a zero literal directly after the operator can only be written as `-0`
